@@ -217,9 +217,10 @@ def _exists(f, *rest, trig=None):
 
 
 class Evaluator:
-    def __init__(self, reg, extra=None):
+    def __init__(self, reg, extra=None, exact=False):
         self.reg = reg
         self.extra = extra or {}
+        self.exact = exact      # comparison-only code (C01): the contract is evaluated with exact float comparisons
         self.canon = {}
         self.pre = {}
         self._macro_fns = {}
@@ -236,6 +237,9 @@ class Evaluator:
             "_fge": lambda a, b: a >= b or _feq(a, b), "cos": math.cos, "sin": math.sin, "sqrt": math.sqrt, "pi": math.pi,
             "exp": math.exp,
         }
+        if self.exact:
+            env.update({"_feq": lambda a, b: a == b, "_fne": lambda a, b: a != b, "_fle": lambda a, b: a <= b,
+                        "_fge": lambda a, b: a >= b})
         env.update(self.extra)
         for name in self.reg.macros:
             env[name] = self.macro(name, env)
